@@ -11,6 +11,7 @@ from . import gen, verus
 
 VERIF = os.path.dirname(os.path.dirname(os.path.abspath(__file__)))
 WORK = os.environ.get('VERIF_WORK') or os.path.join(VERIF, '.work')   # (VERIF_WORK: scratch experiments only)
+OUT = os.environ.get('VERIF_WORK') or VERIF     # evidence/ and replays/ of a scratch experiment stay in its own directory
 REPO = os.environ.get('VERIF_REPO', '/repo')
 
 TAG_RE = re.compile(r'//\s*\[((?:C\d+[ ,]*)+)\]')
@@ -232,16 +233,16 @@ def load_known():
 
 
 def write_evidence(prop, tier, seed, t0, coverage, assumptions, violations):
-    os.makedirs(os.path.join(VERIF, 'evidence'), exist_ok=True)
+    os.makedirs(os.path.join(OUT, 'evidence'), exist_ok=True)
     ev = dict(property_id=prop, tier=tier, seed=seed, level='proof', coverage=coverage,
               assumptions=assumptions, wall_s=round(time.time() - t0, 2), violations=violations)
-    with open(os.path.join(VERIF, 'evidence', prop + '.json'), 'w') as f:
+    with open(os.path.join(OUT, 'evidence', prop + '.json'), 'w') as f:
         json.dump(ev, f, indent=1, sort_keys=False)
     return ev
 
 
 def write_replay(prop, failure, extra=None):
-    d = os.path.join(VERIF, 'replays')
+    d = os.path.join(OUT, 'replays')
     os.makedirs(d, exist_ok=True)
     name = '%s_%s.json' % (prop, hashlib.sha1(failure.oid.encode()).hexdigest()[:10])
     path = os.path.join(d, name)
